@@ -5,6 +5,7 @@ package client
 import (
 	"context"
 	"sync"
+	"time"
 )
 
 // VerifC07Teardown: a disconnect (user Close from another goroutine, server
@@ -44,8 +45,13 @@ func VerifC07Teardown() {
 	cfg := NewConfig("me")
 	cfg.Server, cfg.Proxy, cfg.PingFreq = "srv:1", "vtest://p", 0
 	cfg.Flood = true
-	if inb+outb <= 8 {
+	if inb+outb <= 8 && vParam("PINGS", 0) == 0 {
 		cfg.Flood = vLen("flood", 0, 1) == 1 // flood control on only for small backlogs (its clock arithmetic is C10's subject)
+	}
+	if n := vParam("PINGS", 0); n > 0 {
+		// keep-alive on, against a server that never answers: n ticks pass before the connection ends
+		cfg.PingFreq = time.Second
+		vSetOpt("tickerTicks", n)
 	}
 	conn := Client(cfg)
 	if vLen("track", 0, 1) == 1 {
